@@ -1,3 +1,4 @@
+import BV.C13.Spec
 /-
 C10 — executable mirror of btcd's transaction pool (mempool/mempool.go) and of the block
 connect / disconnect protocol netsync applies to it (netsync/manager.go,
@@ -26,6 +27,7 @@ structure TxAbs where
   seqs : List Nat
   nOuts : Nat
   lockTime : Nat
+  version : Nat      -- transaction version (BIP68 applies from version 2)
   fee : Nat
   vsize : Nat
   ssize : Nat        -- stripped serialize size
@@ -34,7 +36,6 @@ structure TxAbs where
   coinbase : Bool    -- blockchain.IsCoinBase
   valuesOk : Bool    -- value rules of blockchain.CheckTransactionInputs
   std : Bool         -- CheckTransactionStandard apart from finality, and checkInputsStandard
-  seqLockOk : Bool   -- BIP68 sequence lock active for the next block
   sigOk : Bool       -- sigop cost within Policy.MaxSigOpCostPerTx
   highPrio : Bool    -- mining.CalcPriority > MinHighPriority
   scriptsOk : Bool   -- blockchain.ValidateTransactionScripts with the standard flags
@@ -314,6 +315,29 @@ def available (c : Chain) (s : Pool) (x : OutPoint) : Bool :=
     | some p => x.idx < p.nOuts
     | none => false)
 
+/-- median time past of the chain when the block at height `h` was its tip (`h ≥ height`: the tip's) -/
+def mtpAt (c : Chain) (h : Nat) : Nat :=
+  if c.height ≤ h then c.mtp
+  else match c.stack.drop (c.height - h - 1) with
+    | r :: _ => r.prevMtp
+    | [] => 0
+
+/-- one input as BIP68 sees it (`calcSequenceLock` with `mempool = true`): an output of the chain counts from
+its block, an unconfirmed one (`UnminedHeight`) from the next block; the clock of a time-based lock is the
+median time past of the block before that one -/
+def seqInput (c : Chain) (x : OutPoint) (q : Nat) : C13.Spec.SeqInput :=
+  match c.find x with
+  | some u => ⟨q, u.height, mtpAt c (u.height - 1)⟩
+  | none => ⟨q, c.height + 1, mtpAt c c.height⟩
+
+def seqInputs (c : Chain) (t : TxAbs) : List C13.Spec.SeqInput :=
+  (t.ins.zip t.seqs).map (fun p => seqInput c p.1 p.2)
+
+/-- `CalcSequenceLock` + `SequenceLockActive` for the next block, by the BIP68 definitions of C13's Spec -/
+def seqLocksOk (c : Chain) (t : TxAbs) : Bool :=
+  let l := C13.Spec.sequenceLocks (decide (2 ≤ t.version)) (seqInputs c t)
+  C13.Spec.locksSatisfied l.1 l.2 (c.height + 1) c.mtp
+
 def immature (c : Chain) (x : OutPoint) : Bool :=
   c.utxo.any (fun u => u.op = x && u.cb && (c.height + 1 - u.height < c.maturity))
 
@@ -339,7 +363,7 @@ sigop cost, relay fee. -/
 def checkInputs (pol : Policy) (c : Chain) (s : Pool) (t : TxAbs) (isNew rateLimit isRepl : Bool) : CheckRes :=
   if t.ins.any (immature c) || !t.valuesOk then .err .invalid
   else if !pol.acceptNonStd && !t.std then .err .nonstd
-  else if !t.seqLockOk then .err .nonstd
+  else if !seqLocksOk c t then .err .nonstd
   else if !t.sigOk then .err .nonstd
   else if !relayFeeMet pol t isNew rateLimit then .err .lowfee
   else checkTail pol s t isRepl
